@@ -74,6 +74,8 @@ def _cases(draw, tier):
     lecmult = (name in ('mincost', 'minsqcost') and inst['lprefs'] is not None
                and pct(draw) < 50)
     want_stab = True if (forced and kw['cls'] != 'lower_quotas') else None
+    if lecmult and kw.get('cls') != 'lower_quotas' and pct(draw) < 70:
+        want_stab = True        # lecturer ranks only matter among non-empty matchings
     want_pc = None
     if name in ('lmb', 'lsb', 'mincostlsb') and inst['na'] == 3 and pct(draw) < 35:
         # project closures x block lower quotas x free targets: what a closed project does to
@@ -84,7 +86,10 @@ def _cases(draw, tier):
     opts = draw(strategies.option_sets(inst, min_crit=1, max_crit=1, names=[name],
                                        twopl=True if (lecmult or want_stab) else None,
                                        stab=want_stab, pc=want_pc))
-    if lecmult:
+    if lecmult and pct(draw) < 35:
+        # second multiplier absent: the documented default (0) is what is being tested
+        opts['crit'][0][2] = list(draw(st.sampled_from([[], [1], [2], [3]])))
+    elif lecmult:
         opts['crit'][0][2] = [draw(st.sampled_from([0, 1, 2, 3])),
                               draw(st.sampled_from([1, 2, 3]))]
     elif name in ('mincost', 'minsqcost') and not opts['twopl'] and pct(draw) < 40:
